@@ -32,7 +32,8 @@ def main():
         clock.install()
         from aw_datastore import Datastore
 
-        st = Datastore(SqliteStorage, testing=True, filepath=path, enable_lazy_commit=h["lazy"]).storage_strategy
+        ds_obj = Datastore(SqliteStorage, testing=True, filepath=path, enable_lazy_commit=h["lazy"])
+        st = ds_obj.storage_strategy
         st.conn.set_trace_callback(cb)
 
         def own_ids():
@@ -40,6 +41,7 @@ def main():
     else:
         from aw_datastore.storages import PeeweeStorage
 
+        ds_obj = None
         st = PeeweeStorage(testing=True, filepath=path)
         st.db.connection().set_trace_callback(cb)
 
@@ -59,7 +61,7 @@ def main():
             op[2] = ["raw", op[2]]
         elif op[0] == "replacelast":
             op = op[:3]
-        commitlib.apply_op(st, op, [], own_ids)
+        commitlib.apply_op(st, op, [], own_ids, ds_obj)
     os.write(fd, b"END\n")
     print(count[0])
 
